@@ -11,11 +11,11 @@ reads zeros after the terminator) assume what is a theorem here.
 Outcomes of `lexFile bytes` (= tokenize_file up to the return of tokenize):
   ok n            n tokens (without TK_EOF)
   diag line msg   `error_at(loc, msg)`; `line` is what error_at computes: 1 + number of '\n' before loc
-  overread why    the scanner steps over the terminating NUL (undefined behaviour in C):
+  overread why    the code steps over the terminating NUL:
                     universalBackslash  convert_universal_chars: `\` directly before the NUL is copied as a pair
-                    lineComment         `//` with no '\n' before the NUL: `while (*p != '\n') p++`
-                    stringBackslash     string_literal_end: `\` directly before the NUL, `p++` twice
-                    charBackslash       read_char_literal: `'\` directly before the NUL, strchr from beyond it
+                  (the three sites of the scanner proper — `//` without a newline, `"\` and `'\` directly before the NUL —
+                  were repaired in /repo, fix ee6fc96; the model follows the repaired code and Findings/C13.lean keeps
+                  the witnesses)
   fuel            loop bound of the model exhausted (theorem: never)
 
 The passes: read_file appends '\n' when the last byte is not '\n'; the C string ends at the first NUL
@@ -34,7 +34,7 @@ inductive Msg
   deriving DecidableEq, Repr
 
 inductive Why
-  | universalBackslash | lineComment | stringBackslash | charBackslash
+  | universalBackslash
   deriving DecidableEq, Repr
 
 inductive Outcome
@@ -111,12 +111,12 @@ def convUCAux : Nat → List Nat → Except Why (List Nat)
       match rest with
       | [] => .error .universalBackslash          -- `*q++ = *p++; *q++ = *p++;` copies the NUL and goes on behind it
       | b :: rest' =>
-        if b = 117 ∧ readUC rest' 4 0 ≠ 0 then
+        if b = 117 ∧ readUC rest' 4 0 ≠ 0 ∧ readUC rest' 4 0 ≠ 10 then
           (convUCAux fuel (rest'.drop 4)).map (encodeU (readUC rest' 4 0) ++ ·)
-        else if b = 85 ∧ readUC rest' 8 0 ≠ 0 then
+        else if b = 85 ∧ readUC rest' 8 0 ≠ 0 ∧ readUC rest' 8 0 ≠ 10 then
           (convUCAux fuel (rest'.drop 8)).map (encodeU (readUC rest' 8 0) ++ ·)
         else if b = 117 ∨ b = 85 then
-          (convUCAux fuel rest).map (a :: ·)       -- `*q++ = *p++;` only the backslash
+          (convUCAux fuel rest).map (a :: ·)       -- `*q++ = *p++;` only the backslash (value 0 or '\n': not converted)
         else (convUCAux fuel rest').map (fun r => a :: b :: r)
     else (convUCAux fuel rest).map (a :: ·)
 
@@ -133,7 +133,6 @@ inductive Step
   | skip (len : Nat)
   | tok (len : Nat)
   | err (off : Nat) (m : Msg)
-  | over (w : Why)
   deriving DecidableEq, Repr
 
 /-- offset of the first '\n' -/
@@ -164,7 +163,6 @@ def ppLen : List Nat → Nat
 inductive StrEnd
   | found (k : Nat)      -- offset of the closing quote
   | unclosed
-  | over
   deriving DecidableEq, Repr
 
 def StrEnd.shift (n : Nat) : StrEnd → StrEnd
@@ -179,7 +177,7 @@ def strEnd : List Nat → StrEnd
     else if c = 10 then .unclosed
     else if c = 92 then
       match t with
-      | [] => .over
+      | [] => .unclosed                           -- `if (*p == '\\' && p[1]) p++;` then the loop reaches the NUL
       | _ :: t' => (strEnd t').shift 2
     else (strEnd t).shift 1
 
@@ -210,7 +208,6 @@ def bodyCheck (wide : Bool) : Nat → List Nat → Nat → Option (Nat × Msg)
 /-- a string literal whose opening quote is at offset `q` of `s` -/
 def strTok (wide : Bool) (s : List Nat) (q : Nat) : Step :=
   match strEnd (s.drop (q + 1)) with
-  | .over => .over .stringBackslash
   | .unclosed => .err (q + 1) .unclosedString
   | .found k =>
     match bodyCheck wide (k + 1) ((s.drop (q + 1)).take k) (q + 1) with
@@ -232,7 +229,6 @@ def xrun : List Nat → Nat
 inductive ChrFirst
   | at (j : Nat)                    -- offset (in the token) of the position after the first character
   | err (off : Nat) (m : Msg)
-  | over
   deriving DecidableEq, Repr
 
 /-- the first (possibly escaped) character of a character constant; `p` = text after the opening quote at offset `q` -/
@@ -241,7 +237,7 @@ def chrFirst (q : Nat) : List Nat → ChrFirst
   | c :: t =>
     if c = 92 then
       match t with
-      | [] => .over                                 -- read_escaped_char returns the NUL, `new_pos` is behind it
+      | [] => .err 0 .unclosedChar                  -- `if (*p == '\\' && p[1] == '\0') error_at(start, …)`
       | d :: t' =>
         if isOct d then
           .at (q + 3 + (if headIs isOct t' then (if headIs isOct (t'.drop 1) then 2 else 1) else 0))
@@ -256,7 +252,6 @@ def chrFirst (q : Nat) : List Nat → ChrFirst
 /-- a character constant whose opening quote is at offset `q` of `s` -/
 def chrTok (s : List Nat) (q : Nat) : Step :=
   match chrFirst q (s.drop (q + 1)) with
-  | .over => .over .charBackslash
   | .err off m => .err off m
   | .at j =>
     match idxQuote (s.drop j) with
@@ -311,7 +306,7 @@ def step (s : List Nat) : Step :=
   | c :: t =>
     if startsWith [47, 47] (c :: t) then
       match idxLF (t.drop 1) with
-      | none => .over .lineComment
+      | none => .skip (2 + (t.drop 1).length)       -- `while (*p && *p != '\n') p++;` stops at the NUL
       | some k => .skip (2 + k)
     else if startsWith [47, 42] (c :: t) then
       match findClose (t.drop 1) with
@@ -353,7 +348,6 @@ def loop (text : List Nat) : Nat → List Nat → Nat → Nat → Nat → Outcom
     | .skip k => loop text fuel ((c :: t).drop k) (pos + k) (line + countLF ((c :: t).take k)) n
     | .tok k => loop text fuel ((c :: t).drop k) (pos + k) (line + countLF ((c :: t).take k)) (n + 1)
     | .err off m => .diag (line + countLF ((c :: t).take off)) (reported text (pos + off) m)
-    | .over w => .overread w
 
 /-- `tokenize(file)` on the text -/
 def scan (text : List Nat) : Outcome := loop text (text.length + 1) text 0 1 0
